@@ -89,7 +89,7 @@ fn plan_module(r: &mut Rng, dir: &str, k: usize) -> ModPlan {
 }
 
 pub fn generate(seed: u64, tier: &str, out: &mut dyn std::io::Write) {
-    let n = if tier == "thorough" { 400 } else { 40 };
+    let n = if tier == "thorough" { 400 } else { 60 };
     let root = run_dir("C08");
     for i in 0..n {
         let mut r = Rng::for_case(seed, 8, i);
